@@ -4,6 +4,7 @@ import (
 	"fmt"
 	"math"
 
+	"pipelined.dev/signal"
 	"verifharness/core"
 	"verifharness/dyn"
 	"verifharness/mon"
@@ -16,7 +17,7 @@ func init() {
 		Rule: "all 169 (source element type, destination element type) pairs over the built-in types plus 7 pairs over named element types x {Write, Read, WriteStriped, ReadStriped, write-then-read round trips across the interleaved and striped forms} x window shapes (channel counts 1..8,13,64; parent 0..40 frames; window at start/interior/end/empty, with and without spare capacity; non-frame-aligned lengths for the interleaved forms) x input lengths {0,1,n-1,n,n+1,2n+3} / per-channel slices {nil, empty, uneven, over-long}; values are boundary-dense + seeded integers exactly representable in both types (fractions and +-Inf for float<->float); " +
 			"each call runs against a canary arena re-read over the whole parent capacity through the hook, with sentinel-filled caller slices; distinct = distinct (function, pair, shape, input lengths) tuples; non-trivial = at least one sample is transferred",
 		Assume: []string{"striped forms only on frame-aligned buffers (as the property states)", "positions computed by the oracle as C*i+c, counts as integer ceil(n/C)"},
-		Plan:   func(tier string) []Batch { return split("pairs", 13, 1200) },
+		Plan:   func(tier string) []Batch { return append(split("pairs", 13, 1200), digestBatches()...) },
 		Run:    runC01,
 	})
 }
@@ -138,7 +139,69 @@ func c01Shapes(c *core.Ctx, r *core.Rand, n int) []c01shape {
 	return shapes
 }
 
+// c01Digests pushes one fixed input vector per transfer pair through Write
+// and both readers, in an order that depends on the child process; the driver
+// requires the per-pair digests of the processes to agree.
+func c01Digests(c *core.Ctx) {
+	all := dyn.AllPairs()
+	order := make([]int, len(all))
+	for i := range order {
+		order[i] = i
+	}
+	switch c.Mode {
+	case "digest-reverse":
+		for i, j := 0, len(order)-1; i < j; i, j = i+1, j-1 {
+			order[i], order[j] = order[j], order[i]
+		}
+	case "digest-interleaved":
+		for i := 0; i+1 < len(order); i += 2 {
+			order[i], order[i+1] = order[i+1], order[i]
+		}
+	}
+	for _, pi := range order {
+		p := all[pi]
+		name := "[" + p.A.Name + "," + p.B.Name + "]"
+		r := core.NewRand(4711, core.HashStr(name))
+		const ch, frames = 3, 110
+		src := p.A.MakeSl(ch * frames)
+		for i := 0; i < src.Len(); i++ {
+			src.Set(i, commonVal(r, p.A.TypeInfo, p.B.TypeInfo))
+		}
+		buf := p.B.Alloc(signal.Allocator{Channels: ch, Length: frames, Capacity: frames})
+		h := core.NewHash()
+		pn, msg := core.Guard(func() {
+			h.Int(p.Write(src, buf))
+			for i := 0; i < buf.Len(); i++ {
+				h.U64(buf.Sample(i).Bits())
+			}
+			if back := reversePair(p.A, p.B); back != nil {
+				out := p.A.MakeSl(ch * frames)
+				h.Int(back.Read(buf, out))
+				lens := []int{frames, frames, frames}
+				ss := p.A.MakeSS(lens)
+				h.Int(back.ReadStriped(buf, ss))
+				for i := 0; i < out.Len(); i++ {
+					h.U64(out.Get(i).Bits())
+					h.U64(ss.At(i % ch).Get(i / ch).Bits())
+				}
+			}
+		})
+		if pn {
+			c.Violate("transfer"+name+"|panic", "digest/"+name, "transfer panicked: "+msg, nil)
+			continue
+		}
+		c.Digest("transfer"+name, fmt.Sprintf("%016x", h.Sum()))
+		c.Eval(1)
+		c.Distinct(core.NewHash().Str(c.Mode).Str(name).Sum())
+		c.Obs("digest_transfers", 1)
+	}
+}
+
 func runC01(c *core.Ctx) {
+	if isDigestMode(c.Mode) {
+		c01Digests(c)
+		return
+	}
 	nb := dyn.NBuiltin
 	pi := 0
 	for ai := 0; ai < nb; ai++ {
